@@ -41,11 +41,18 @@ def modified_guard(n):
         return False
     if n["pruned"] is not None:
         return False  # decided by a context constant (e.g. `force or ...`), not by the entry's state
-    c = n["cond"]
-    for x in c.walk():
-        if x.kind == "sub" and x.args[1].kind == "const" and x.args[1].args[0] in ("hash", "modified") and cattr_origin(x) is not None:
-            return True
-    return False
+    def is_mod(c):
+        if c.kind == "boolop" and c.args[0] == "or":
+            # `A or B` writes whenever either holds: every disjunct must be a modified-condition
+            return all(is_mod(x) for x in c.args[1:])
+        if c.kind == "boolop" and c.args[0] == "and":
+            return any(is_mod(x) for x in c.args[1:])
+        for x in c.walk():
+            if x.kind == "sub" and x.args[1].kind == "const" and x.args[1].args[0] in ("hash", "modified") and cattr_origin(x) is not None:
+                return True
+        return False
+
+    return is_mod(n["cond"])
 
 
 def guarded_only(g, targets, guard, arm=True):
